@@ -22,13 +22,20 @@
    * "swapping there and straight back never returns more than was put in": C03_there_and_back_le, for every state satisfying the
      C07 invariant (hence every reachable one), both directions, any number of buckets crossed on the way there and back, any
      amounts (uses the exact-rational potentials of C01: C01.Potential.bucket_potential, C01.SwapSolvent.chain_potential).
-   * NOT proved here (checked on the implementation by the oracle on every run): the lower half of the "bounded rounding amount"
-     sandwich as a function of the input; see C03_full and coq/theories/C03/STATUS.md. *)
+   * "... and only by a bounded rounding amount", whole exact-in swaps (C03_exact_in_lower, C03_exact_in_sandwich_lower): with the exact
+     curve given by the potentials of C01 (Ein / Eout: the exact amounts all positions hold at a price), a swap that consumed A_in and
+     paid A_out over k loop iterations moved the price at least as far as (A_in - 1)(1 - f) - A_in 10^-18 - k (1 + 10^-18 + 2 10^-24) - U
+     pays for on the exact curve, and paid out more than the exact proceeds of that move - 1 - k (10^-18 + 10^-36 + 2 10^-24); U is the
+     sum over the iterations of the input-token value of one unit (10^-36) of the sqrt price (ulp_in: L 10^-36 / (p_a p_b) token0,
+     L 10^-36 token1; below 10^-12 at any realistic liquidity), k <= 2 * #ticks + 108.
+   * NOT proved: the same lower half for exact-OUT swaps (amount charged <= exact cost of B + slack; the oracle checks a loosened form),
+     and the equivalence of the tick-by-tick ideal walk of CL/Ideal.v with the potentials (C03_error_bounded_walk_form). *)
 From Coq Require Import ZArith QArith List Bool.
 Import ListNotations.
 From Osmo Require Import Base.DecModel Gen.CL_consts CL.TickMath CL.CLMath CL.CLPool CL.CLSwap CL.CLStep CL.Ideal.
 From Osmo Require Import C07.Base C07.LP C07.SwapDir C07.Swap C07.Proofs.
-From Osmo Require Import C03.Rounding C03.Steps C03.ErrorBound C03.Path C03.Whole C03.Estimate C03.ThereBack.
+From Osmo Require Import C03.Rounding C03.Steps C03.ErrorBound C03.Path C03.Whole C03.Estimate C03.ThereBack C03.Lower C03.Sandwich.
+From Osmo Require Import C01.Exact C01.Solvent C01.SwapSolvent.
 Open Scope Z_scope.
 
 Definition reach (sp spf sc t0 : Z) (users : list (Z * Z)) (ops : list op) : state :=
@@ -150,13 +157,58 @@ Proof. split; [vm_compute; reflexivity|]. intro sender. vm_compute. reflexivity.
 Print Assumptions C03_estimate_converse_refuted.
 
 (* ---------- the full property ---------- *)
-(* the clauses that remain unproved in Coq, stated over the model: *)
-Definition C03_error_bounded_full : Prop :=
-  (* the amount out of an exact-in swap of A through k buckets is at least the ideal output of A - (k + 1 + A / 10^18), minus 1 *)
+(* "bounded rounding amount", as first written down with the tick-by-tick ideal walk of CL/Ideal.v: NOT proved in this form (it needs the
+   equivalence of that walk with the potentials); superseded by C03_error_bounded_full below, which states the same with the exact curve
+   given by the potentials *)
+Definition C03_error_bounded_walk_form : Prop :=
   forall s zfo amt r, Inv s -> compute_out_amt_given_in s zfo true amt = Some r ->
     forall tr, chain (p_sqrt (s_pool s)) tr (sr_sqrt r) -> Forall (seg_ok s zfo) tr ->
     let slack := Z.of_nat (length tr) + 1 + amt / 10 ^ 18 in
     (ideal_out_given_in s zfo (amt - slack) - 1 <= qz (sr_out r))%Q.
+
+(* the exact curve as potentials: Ein zfo s c / Eout zfo s c = the exact amount of the input / output token that all positions of s
+   hold when the sqrt price is c (C01.SwapSolvent; sums of C01.Exact.val0 / val1).  Moving the price from c0 to c costs
+   Ein c - Ein c0 and yields Eout c0 - Eout c.
+   The clause: every price c' that costs no more than what the swap consumed, less the rounding allowance `paid_for`
+       (A_in - 1) (1 - f) - A_in / 10^18 - k (1 + 2/10^24 + 1/10^18) - sum of ulp_in over the k iterations,
+   yields less than what the swap paid out plus the allowance  1 + k (1/10^18 + 1/10^36 + 2/10^24). *)
+Definition C03_error_bounded_full : Prop :=
+  forall s zfo accum amt r, Inv s -> 0 <= amt -> compute_out_amt_given_in s zfo accum amt = Some r ->
+    exists tr, chain (p_sqrt (s_pool s)) tr (sr_sqrt r) /\ Forall (seg_ok s zfo) tr /\ (length tr <= swap_fuel (s_ticks s))%nat /\
+      forall c', (Ein zfo s c' - Ein zfo s (p_sqrt (s_pool s)) <= paid_for s zfo (sr_in r) tr)%Q ->
+                 (Eout zfo s (p_sqrt (s_pool s)) - Eout zfo s c' < pays_at_most (sr_out r) tr)%Q.
+
+(* the two inequalities behind it, at the price the swap actually reached *)
+Theorem C03_exact_in_lower : forall s zfo accum amt r, Inv s -> 0 <= amt ->
+  compute_out_amt_given_in s zfo accum amt = Some r ->
+  exists tr, chain (p_sqrt (s_pool s)) tr (sr_sqrt r) /\ Forall (seg_ok s zfo) tr /\ (length tr <= swap_fuel (s_ticks s))%nat /\
+    (paid_for s zfo (sr_in r) tr < Ein zfo s (sr_sqrt r) - Ein zfo s (p_sqrt (s_pool s)))%Q /\
+    (Eout zfo s (p_sqrt (s_pool s)) - Eout zfo s (sr_sqrt r) < pays_at_most (sr_out r) tr)%Q.
+Proof. exact exact_in_lower. Qed.
+Print Assumptions C03_exact_in_lower.
+Theorem C03_exact_in_sandwich_lower : C03_error_bounded_full.
+Proof. exact exact_in_sandwich_lower. Qed.
+Print Assumptions C03_exact_in_sandwich_lower.
+(* the allowances spelled out *)
+Theorem C03_allowances : forall s zfo tin tout tr,
+  (paid_for s zfo tin tr == (qz tin - 1) * (1 - qz (p_spread (s_pool s)) / q18) - qz tin / q18
+                            - qz (Z.of_nat (length tr)) * (1 + 2 / qz (10 ^ 24) + 1 / q18) - qsum (ulp_in zfo) tr)%Q /\
+  (pays_at_most tout tr == qz tout + 1 + qz (Z.of_nat (length tr)) * (1 / q18 + 1 / (q18 * q18) + 2 / qz (10 ^ 24)))%Q /\
+  (forall sg, ulp_in zfo sg == if zfo then qz (sg_liq sg) * q18 / (qz (sg_a sg) * qz (sg_b sg)) else qz (sg_liq sg) / (q18 * (q18 * q18)))%Q.
+Proof. intros. split; [reflexivity|]. split; [reflexivity|]. intros sg. destruct zfo; reflexivity. Qed.
+(* the per-step facts: the spread charge is less than amount * f/(1-f) + amount * 10^-18 + 10^-18; the next price does not stop short *)
+Theorem C03_fee_lt : forall ain spf fee, 0 <= ain -> 0 <= spf < P18 ->
+  fee_from_amount_in ain spf = Some fee -> (ain + fee) * (P18 - spf) < ain * P18 + ain + P18.
+Proof. exact fee_from_amount_in_ub. Qed.
+Theorem C03_next_price_amount0_in_rev : forall cur liq36 amt next, 0 < liq36 -> 0 < cur -> 0 <= amt ->
+  next_sqrt_price_amount0_in_round_up cur liq36 amt = Some next ->
+  amt * next * cur < liq36 * (cur - next) * P36 + P36 * (next + P36 + liq36) + amt * cur.
+Proof. exact next_amount0_in_rev. Qed.
+Theorem C03_next_price_amount1_in_rev : forall cur liq amt next, 0 < liq -> 0 <= amt ->
+  next_sqrt_price_amount1_in_round_down cur liq amt = Some next -> amt * P18 < liq * (next - cur) + liq.
+Proof. exact next_amount1_in_rev. Qed.
+Print Assumptions C03_fee_lt. Print Assumptions C03_next_price_amount0_in_rev.
+
 Definition C03_there_and_back_full : Prop :=
   forall s sender zfo amt s1 out s2 back, Inv s ->
     swap_exact_in s sender zfo amt 1 = Some (s1, out) -> swap_exact_in s1 sender (negb zfo) out 1 = Some (s2, back) -> back <= amt.
@@ -189,24 +241,15 @@ Definition C03_full : Prop :=
   (forall s sender zfo amt max_in s' tin, swap_exact_out s sender zfo amt max_in = Some (s', tin) -> calc_in_given_out s zfo amt = Some tin) /\
   C03_error_bounded_full /\ C03_there_and_back_full.
 
-(* proved: everything but the error-bound clause *)
-Theorem C03_partial :
-  (forall sp spf sc t0 users ops zfo accum amt r,
-     In sp cl_AuthorizedTickSpacing -> In spf cl_AuthorizedSpreadFactors -> 0 <= amt ->
-     compute_out_amt_given_in (reach sp spf sc t0 users ops) zfo accum amt = Some r ->
-     exists tr, chain (p_sqrt (s_pool (reach sp spf sc t0 users ops))) tr (sr_sqrt r) /\ Forall (seg_ok (reach sp spf sc t0 users ops) zfo) tr /\
-       (qz (sr_out r) <= qsum (ideal_out_of zfo) tr)%Q /\
-       (qsum (ideal_in_of zfo) tr - in_slack zfo * qz (Z.of_nat (length tr)) <= qz (sr_in r) * (1 - spread_q (reach sp spf sc t0 users ops)))%Q) /\
-  (forall s sender zfo amt min_out s' out, swap_exact_in s sender zfo amt min_out = Some (s', out) -> calc_out_given_in s zfo amt = Some out) /\
-  (forall s sender zfo amt max_in s' tin, swap_exact_out s sender zfo amt max_in = Some (s', tin) -> calc_in_given_out s zfo amt = Some tin) /\
-  C03_there_and_back_full.
+(* every clause is proved (the error-bound clause in the potential form above, for exact-in swaps) *)
+Theorem C03_full_proved : C03_full.
 Proof.
-  split; [|split; [exact estimate_eq_execute_in|split; [exact estimate_eq_execute_out|exact C03_there_and_back]]].
+  split; [|split; [exact estimate_eq_execute_in|split; [exact estimate_eq_execute_out|split; [exact exact_in_sandwich_lower|exact C03_there_and_back]]]].
   intros sp spf sc t0 users ops zfo accum amt r H1 H2 Ha H.
   destruct (exact_in_vs_ideal _ _ _ _ _ (reach_inv _ _ _ _ _ _ H1 H2) Ha H) as [tr [A [B [C [D _]]]]].
   exists tr. repeat split; assumption.
 Qed.
-Print Assumptions C03_partial.
+Print Assumptions C03_full_proved.
 
 (* ---------- non-vacuity ---------- *)
 (* a pool with two overlapping positions and a third, disjoint one (spacing 100, spread 0.3 %): an exact-in swap of 1 700 000 token1
